@@ -38,6 +38,9 @@ type WL struct {
 	// Interrupt > 0: the dump is produced in two sittings - a database error on the k-th call stops the
 	// first one and a resume finishes it - before the same round-trip checks run (a resumed dump is a dump).
 	Interrupt uint32 `json:"interrupt,omitempty"`
+	// Pair: a second, independent database is dumped and loaded concurrently in the same process
+	// (two tasks of one simulated run, interleaved at every database call). Each must round-trip.
+	Pair *stor.DBSpec `json:"pair,omitempty"`
 }
 
 func gen(r *rand.Rand) WL {
@@ -53,6 +56,12 @@ func gen(r *rand.Rand) WL {
 		w.ShortReads = 1 + r.IntN(7)
 	}
 	w.Edit = []string{"delnode", "addedge", "kind", "none"}[r.IntN(4)]
+	if r.IntN(8) == 0 {
+		p := stor.GenDB(r, 2, 6, 6)
+		w.Pair = &p
+		w.Path, w.Edit = "dir", "none"
+		return w
+	}
 	if r.IntN(4) == 0 {
 		w.Interrupt = 1 + r.Uint32()%60
 		if r.IntN(2) == 0 {
@@ -135,6 +144,9 @@ func exec(t *testing.T, w WL, cfg simrt.Config) simh.Outcome {
 	out := filepath.Join(base, "out")
 	src := stor.Build(w.DB)
 	ctx := context.Background()
+	if w.Pair != nil {
+		return execPair(t, w, cfg, base, o)
+	}
 	simos.Reset(simos.Plan{ShortReads: w.ShortReads, Rel: base})
 	defer simos.Disable()
 	var res retriever.DumpResult
@@ -279,6 +291,48 @@ func exec(t *testing.T, w WL, cfg simrt.Config) simh.Outcome {
 	if rep := simos.Snapshot(); rep.Ops == 0 {
 		return fail("infra", "the simulated file system saw no operation (instrumentation missing?)")
 	}
+	return o
+}
+
+// execPair: two independent dump+load round trips as concurrent tasks of one simulated run.
+func execPair(t *testing.T, w WL, cfg simrt.Config, base string, o simh.Outcome) simh.Outcome {
+	specs := []stor.DBSpec{w.DB, *w.Pair}
+	errs := make([]string, 2)
+	dsts := []*simdb.DB{stor.NewTarget(), stor.NewTarget()}
+	simos.Reset(simos.Plan{Rel: base})
+	defer simos.Disable()
+	stor.SimSteps, stor.SimTasks = 0, 0
+	task := func(i int) func() {
+		return func() {
+			ctx := context.Background()
+			out := filepath.Join(base, fmt.Sprintf("pair%d", i))
+			if _, err := retriever.Dump(ctx, stor.Build(specs[i]), "simdb", stor.Targets(specs[i]), stor.DumpOptions(out, w.Opts)); err != nil {
+				errs[i] = "dump: " + err.Error()
+				return
+			}
+			lo := retriever.DefaultLoadOptions(out)
+			lo.BatchSize, lo.VerifyMetrics, lo.ProgressInterval = w.LoadBatch, true, 0
+			if _, err := retriever.Load(ctx, dsts[i], "simdb", lo); err != nil {
+				errs[i] = "load: " + err.Error()
+			}
+		}
+	}
+	if c, d := stor.UnderSimN(t, cfg, "pair", task(0), task(1)); c != "" {
+		o.Class, o.Detail = c, d
+		return o
+	}
+	o.Res.Steps, o.Res.Tasks = stor.SimSteps, stor.SimTasks
+	for i := range specs {
+		if errs[i] != "" {
+			o.Class, o.Detail = "oracle:pair_failed", fmt.Sprintf("round trip %d of two concurrent, independent round trips failed: %s", i, errs[i])
+			return o
+		}
+		if d := stor.Compare(specs[i], dsts[i]); d != "" {
+			o.Class, o.Detail = "oracle:isomorphism", fmt.Sprintf("round trip %d of two concurrent, independent round trips: %s", i, d)
+			return o
+		}
+	}
+	o.Counters["path_concurrent_pair"]++
 	return o
 }
 
